@@ -3,6 +3,7 @@ package props
 import (
 	"fmt"
 	"go/constant"
+	"go/token"
 	"go/types"
 	"regexp"
 	"sort"
@@ -98,6 +99,8 @@ func C04(p *load.Prog, r *oblig.Run) {
 	r.Rule("R04.c", "canonical print re-parses: constraint words, 3-letter months and the range format are accepted and map back", 20)
 	r.Rule("R04.r", "range pattern: between/and word groups are exactly the documented words", 7)
 	r.Rule("R04.m", "the month-name lookup in parseDateParts handles a word that is not in the table", 1)
+	r.Rule("R04.w", "a range is valid only if both of its ends are (DateRange.IsValid answers true only after both ends were found non-zero)", 1)
+	c04RangeValid(p, r)
 	r.Rule("R04.v", "the calendar validity check applies whenever a day was written: its branch tests the day capture group itself (not the parsed number)", 1)
 	r.Rule("R04.q", "the range pattern splits 'between X and Y' into exactly X and Y for every keyword pair and every month spelling in either date", 500)
 	r.Rule("R04.s", "DateRange.String and DateNode.String choose the single-date form by structural identity of the two ends (Date.Is)", 2)
@@ -567,10 +570,84 @@ func checkMonthLookup(p *load.Prog, r *oblig.Run, parse *ssa.Function) {
 					}
 				}
 			}
-			if used {
-				o.OK("comma-ok lookup whose ok result steers a branch")
-			} else {
+			if !used {
 				o.Fail("the comma-ok result of the month lookup is never tested")
+				continue
+			}
+			// every return of a date that carries the looked-up month lies behind the test: on each path from the lookup
+			// to such a return either the found flag was seen true or the month word was seen empty
+			var okV, monthV ssa.Value
+			for _, ref := range *lk.Referrers() {
+				if ex, isEx := ref.(*ssa.Extract); isEx {
+					if ex.Index == 1 {
+						okV = ex
+					} else {
+						monthV = ex
+					}
+				}
+			}
+			word := lk.Index
+			bad := ""
+			paths, capped := simplePaths(b, map[*ssa.BasicBlock]bool{}, 5000)
+			if capped {
+				o.Unknown("too many paths from the month lookup")
+				continue
+			}
+			for _, path := range paths {
+				last := path[len(path)-1]
+				ret, isRet := last.Instrs[len(last.Instrs)-1].(*ssa.Return)
+				if !isRet || !feasible(path) {
+					continue
+				}
+				// does the returned Date carry the looked-up month?
+				carries := false
+				for _, blk := range path {
+					for _, i2 := range blk.Instrs {
+						if st, isSt := i2.(*ssa.Store); isSt && monthV != nil {
+							v := st.Val
+							if cv, isCv := v.(*ssa.Convert); isCv {
+								v = cv.X
+							}
+							if v == monthV {
+								if fa, isFA := st.Addr.(*ssa.FieldAddr); isFA && su.FieldName(fa) == "Month" {
+									carries = true
+								}
+							}
+						}
+					}
+				}
+				_ = ret
+				if !carries {
+					continue
+				}
+				tested := false
+				for i, blk := range path[:len(path)-1] {
+					iff, isIf := blk.Instrs[len(blk.Instrs)-1].(*ssa.If)
+					if !isIf {
+						continue
+					}
+					outcome := path[i+1] == blk.Succs[0]
+					cond := iff.Cond
+					if u, isNot := cond.(*ssa.UnOp); isNot && u.Op == token.NOT {
+						cond, outcome = u.X, !outcome
+					}
+					if cond == okV && outcome {
+						tested = true // found in the table
+					}
+					if bo, isBo := cond.(*ssa.BinOp); isBo && (bo.Op == token.EQL || bo.Op == token.NEQ) {
+						if s0, isS := su.ConstString(bo.Y); isS && s0 == "" && bo.X == word && (bo.Op == token.EQL) == outcome {
+							tested = true // no month word was written
+						}
+					}
+				}
+				if !tested {
+					bad = "a path " + pathDesc(p, path) + " returns a date with the looked-up month without having seen the found flag true or the month word empty"
+				}
+			}
+			if bad != "" {
+				o.Fail("an unknown month word can get through: " + bad + " - \"Foo 1900\" or \"Sept 1850\" then silently becomes the bare year")
+			} else {
+				o.OK("comma-ok lookup; every date that carries the month is returned behind the found/empty test")
 			}
 		}
 	}
@@ -761,5 +838,98 @@ func checkSingleFormSelection(p *load.Prog, r *oblig.Run) {
 		default:
 			o.Fail("the single-date print form is selected with Date." + sel.Name() + " instead of the structural Date.Is: a range whose ends merely could be the same date (\"from 3 Sep 1900 to Bef. Mar 1950\") prints as its start only and does not parse back to the same end date")
 		}
+	}
+}
+
+// c04RangeValid (R04.w): on every path of DateRange.IsValid that answers true both ends were tested non-zero.
+func c04RangeValid(p *load.Prog, r *oblig.Run) {
+	fn := p.Method(load.PkgRoot, "DateRange", "IsValid")
+	o := r.Add("R04.w", "DateRange.IsValid", "-", "when a range counts as valid")
+	if fn == nil || len(fn.Blocks) == 0 {
+		o.Unknown("DateRange.IsValid not found")
+		return
+	}
+	o.Pos = p.Pos(fn.Pos())
+	// IsZero calls and which end they test
+	endOf := func(c *ssa.Call) string {
+		if cal := c.Call.StaticCallee(); cal == nil || cal.Name() != "IsZero" || len(c.Call.Args) != 1 {
+			return ""
+		}
+		return describeDateExpr(c.Call.Args[0], 0)
+	}
+	paths, capped := simplePaths(fn.Blocks[0], map[*ssa.BasicBlock]bool{}, 2000)
+	if capped {
+		o.Unknown("too many paths")
+		return
+	}
+	bad, n := "", 0
+	for _, path := range paths {
+		last := path[len(path)-1]
+		ret, ok := last.Instrs[len(last.Instrs)-1].(*ssa.Return)
+		if !ok || len(ret.Results) != 1 {
+			continue
+		}
+		pred := map[*ssa.BasicBlock]*ssa.BasicBlock{}
+		for i := 1; i < len(path); i++ {
+			pred[path[i]] = path[i-1]
+		}
+		resolve := func(v ssa.Value) ssa.Value {
+			for i := 0; i < 8; i++ {
+				ph, ok := v.(*ssa.Phi)
+				if !ok {
+					return v
+				}
+				moved := false
+				for j, q := range ph.Block().Preds {
+					if q == pred[ph.Block()] {
+						v, moved = ph.Edges[j], true
+					}
+				}
+				if !moved {
+					return v
+				}
+			}
+			return v
+		}
+		nonZero := map[string]bool{}
+		note := func(cond ssa.Value, outcome bool) {
+			for {
+				if u, isNot := cond.(*ssa.UnOp); isNot && u.Op == token.NOT {
+					cond, outcome = u.X, !outcome
+					continue
+				}
+				break
+			}
+			if c, isCall := cond.(*ssa.Call); isCall && !outcome {
+				if e := endOf(c); e != "" {
+					nonZero[e] = true
+				}
+			}
+		}
+		for i, b := range path[:len(path)-1] {
+			if iff, isIf := b.Instrs[len(b.Instrs)-1].(*ssa.If); isIf {
+				note(resolve(iff.Cond), path[i+1] == b.Succs[0])
+			}
+		}
+		v := resolve(ret.Results[0])
+		if k, isK := v.(*ssa.Const); isK {
+			if k.Value == nil || !constant.BoolVal(k.Value) {
+				continue // answers false
+			}
+		} else {
+			note(v, true) // answers true when this expression is true
+		}
+		n++
+		if len(nonZero) < 2 {
+			bad = fmt.Sprintf("a path answers true after testing only %d end(s) for being non-zero", len(nonZero))
+		}
+	}
+	switch {
+	case n == 0:
+		o.Unknown("IsValid never answers true")
+	case bad != "":
+		o.Fail("DateRange.IsValid: " + bad + " - a range with one unparsable end (Bet. 31 Feb 1900 and 1910) counts as valid, loses its warning and prints with a hole")
+	default:
+		o.OK(fmt.Sprintf("%d path(s) answering true, each after both ends were found non-zero", n))
 	}
 }
